@@ -347,4 +347,289 @@ theorem mergeHLoop_keeps (t : List FieldSpec) (ht : ∀ fs ∈ t, fs.rule ≠ .t
     exact (mergeFieldH_keeps h fs.rule _ _ (ht fs (by simp))).trans
       (ih (fun x hx => ht x (by simp [hx])) _ a b _)
 
+/-! ### heap view and value view agree -/
+
+/-- a reference-level field value of the right shape for its kind, pointing into `h` -/
+def RefOK (h : Heap) : Kind → RVal → Prop
+  | .tags, .ref none => True
+  | .tags, .ref (some i) => ∃ m, h[i]? = some (.tags m)
+  | .list, .ref none => True
+  | .list, .ref (some i) => ∃ l, h[i]? = some (.strs l)
+  | .tags, .scalar _ => False
+  | .list, .scalar _ => False
+  | _, .ref _ => False
+  | _, .scalar _ => True
+
+theorem lt_of_getElem?_some {h : Heap} {i : Nat} {o : Obj} (hm : h[i]? = some o) : i < h.length := by
+  rcases Nat.lt_or_ge i h.length with h1 | h1
+  · exact h1
+  · rw [List.getElem?_eq_none h1] at hm; cases hm
+
+theorem readTags_keeps {h h' : Heap} (hk : Keeps h h') (r : Option Nat) (hr : RefOK h .tags (.ref r)) :
+    readTags h' r = readTags h r := by
+  cases r with
+  | none => rfl
+  | some i =>
+    obtain ⟨m, hm⟩ := hr
+    simp only [readTags, hk.2 i (lt_of_getElem?_some hm)]
+
+theorem readStrs_keeps {h h' : Heap} (hk : Keeps h h') (r : Option Nat) (hr : RefOK h .list (.ref r)) :
+    readStrs h' r = readStrs h r := by
+  cases r with
+  | none => rfl
+  | some i =>
+    obtain ⟨m, hm⟩ := hr
+    simp only [readStrs, hk.2 i (lt_of_getElem?_some hm)]
+
+theorem RefOK_keeps {h h' : Heap} (hk : Keeps h h') (k : Kind) (v : RVal) (hr : RefOK h k v) : RefOK h' k v := by
+  cases k <;> cases v with
+  | scalar x => first | exact hr | trivial
+  | ref r =>
+    cases r with
+    | none => first | exact hr | trivial
+    | some i =>
+      first
+      | (obtain ⟨m, hm⟩ := hr; exact ⟨m, by rw [hk.2 i (lt_of_getElem?_some hm)]; exact hm⟩)
+      | exact hr
+
+theorem derefVal_keeps {h h' : Heap} (hk : Keeps h h') (k : Kind) (v : RVal) (hr : RefOK h k v) :
+    derefVal h' k v = derefVal h k v := by
+  cases k <;> cases v with
+  | scalar x => first | rfl | exact absurd hr (by simp [RefOK])
+  | ref r =>
+    first
+    | (cases r with
+       | none => rfl
+       | some i => simp only [derefVal, readTags_keeps hk (some i) hr])
+    | simp only [derefVal, readStrs_keeps hk r hr]
+    | rfl
+
+theorem readTags_hwrite_self (g : Heap) (n : Nat) (hn : n < g.length) (m : Tags) :
+    readTags (hwrite g n (.tags m)) (some n) = m := by
+  simp [readTags, hwrite, hn]
+
+theorem readStrs_hwrite_self (g : Heap) (n : Nat) (hn : n < g.length) (l : List String) :
+    readStrs (hwrite g n (.strs l)) (some n) = l := by
+  simp [readStrs, hwrite, hn]
+
+theorem length_hwrite (g : Heap) (n : Nat) (o : Obj) : (hwrite g n o).length = g.length := by simp [hwrite]
+
+theorem mergeFieldH_tagsFresh (h : Heap) (ra rb : Option Nat)
+    (ha : RefOK h .tags (.ref ra)) (hb : RefOK h .tags (.ref rb)) :
+    derefVal (mergeFieldH h .tagsFresh (.ref ra) (.ref rb)).1 .tags (mergeFieldH h .tagsFresh (.ref ra) (.ref rb)).2
+      = mergeVal .tagsFresh (derefVal h .tags (.ref ra)) (derefVal h .tags (.ref rb)) ∧
+    RefOK (mergeFieldH h .tagsFresh (.ref ra) (.ref rb)).1 .tags (mergeFieldH h .tagsFresh (.ref ra) (.ref rb)).2 := by
+  by_cases hnn : (ra.isNone && rb.isNone) = true
+  · have h1 : ra = none := by cases ra <;> simp_all
+    have h2 : rb = none := by cases rb <;> simp_all
+    subst h1; subst h2
+    simp [mergeFieldH, derefVal, mergeVal, mergeTags, RefOK]
+  · -- the fresh object
+    have hk1 : Keeps h (h ++ [Obj.tags []]) := keeps_alloc h _
+    have e0 : readTags (h ++ [Obj.tags []]) (some h.length) = [] := by simp [readTags]
+    have ea : readTags (h ++ [Obj.tags []]) ra = readTags h ra := readTags_keeps hk1 ra ha
+    have hlen1 : h.length < (h ++ [Obj.tags []]).length := by simp
+    have hk2 := keeps_write_fresh hk1 h.length (Nat.le_refl _) (Obj.tags (copyInto [] (readTags h ra)))
+    have e1 := readTags_hwrite_self (h ++ [Obj.tags []]) h.length hlen1 (copyInto [] (readTags h ra))
+    have eb : readTags (hwrite (h ++ [Obj.tags []]) h.length (Obj.tags (copyInto [] (readTags h ra)))) rb = readTags h rb :=
+      readTags_keeps hk2 rb hb
+    have hlen2 : h.length < (hwrite (h ++ [Obj.tags []]) h.length (Obj.tags (copyInto [] (readTags h ra)))).length := by
+      rw [length_hwrite]; exact hlen1
+    have e2 := readTags_hwrite_self _ h.length hlen2 (copyInto (copyInto [] (readTags h ra)) (readTags h rb))
+    have hres : mergeFieldH h .tagsFresh (.ref ra) (.ref rb) =
+        (hwrite (hwrite (h ++ [Obj.tags []]) h.length (Obj.tags (copyInto [] (readTags h ra)))) h.length
+            (Obj.tags (copyInto (copyInto [] (readTags h ra)) (readTags h rb))), .ref (some h.length)) := by
+      simp only [mergeFieldH, hnn, Bool.false_eq_true, if_false, e0, ea, e1, eb]
+    rw [hres]
+    constructor
+    · simp only [derefVal, e2, mergeVal]
+      cases ra with
+      | none =>
+        cases rb with
+        | none => simp at hnn
+        | some j => simp [derefVal, mergeVal, mergeTags, readTags]
+      | some i =>
+        cases rb with
+        | none => simp [derefVal, mergeVal, mergeTags, readTags]
+        | some j => simp [derefVal, mergeVal, mergeTags]
+    · refine ⟨copyInto (copyInto [] (readTags h ra)) (readTags h rb), ?_⟩
+      simp only [hwrite]
+      rw [List.getElem?_set_self (by simpa [hwrite] using hlen2)]
+
+theorem mergeFieldH_concat (h : Heap) (ra rb : Option Nat)
+    (ha : RefOK h .list (.ref ra)) (hb : RefOK h .list (.ref rb)) :
+    derefVal (mergeFieldH h .concat (.ref ra) (.ref rb)).1 .list (mergeFieldH h .concat (.ref ra) (.ref rb)).2
+      = mergeVal .concat (derefVal h .list (.ref ra)) (derefVal h .list (.ref rb)) ∧
+    RefOK (mergeFieldH h .concat (.ref ra) (.ref rb)).1 .list (mergeFieldH h .concat (.ref ra) (.ref rb)).2 := by
+  have hk1 : Keeps h (h ++ [Obj.strs []]) := keeps_alloc h _
+  have e0 : readStrs (h ++ [Obj.strs []]) (some h.length) = [] := by simp [readStrs]
+  have ea : readStrs (h ++ [Obj.strs []]) ra = readStrs h ra := readStrs_keeps hk1 ra ha
+  have hlen1 : h.length < (h ++ [Obj.strs []]).length := by simp
+  have hk2 := keeps_write_fresh hk1 h.length (Nat.le_refl _) (Obj.strs ([] ++ readStrs h ra))
+  have e1 := readStrs_hwrite_self (h ++ [Obj.strs []]) h.length hlen1 ([] ++ readStrs h ra)
+  have eb : readStrs (hwrite (h ++ [Obj.strs []]) h.length (Obj.strs ([] ++ readStrs h ra))) rb = readStrs h rb :=
+    readStrs_keeps hk2 rb hb
+  have hlen2 : h.length < (hwrite (h ++ [Obj.strs []]) h.length (Obj.strs ([] ++ readStrs h ra))).length := by
+    rw [length_hwrite]; exact hlen1
+  have e2 := readStrs_hwrite_self _ h.length hlen2 (([] ++ readStrs h ra) ++ readStrs h rb)
+  have hres : mergeFieldH h .concat (.ref ra) (.ref rb) =
+      (hwrite (hwrite (h ++ [Obj.strs []]) h.length (Obj.strs ([] ++ readStrs h ra))) h.length
+          (Obj.strs (([] ++ readStrs h ra) ++ readStrs h rb)), .ref (some h.length)) := by
+    simp only [mergeFieldH, e0, ea, e1, eb]
+  rw [hres]
+  constructor
+  · simp only [derefVal, mergeVal]
+    rw [e2]; simp
+  · refine ⟨([] ++ readStrs h ra) ++ readStrs h rb, ?_⟩
+    simp only [hwrite]
+    rw [List.getElem?_set_self (by simpa [hwrite] using hlen2)]
+
+/-- One field: the heap view's result denotes the value view's result, and is a well-formed
+reference into the new heap. -/
+theorem mergeFieldH_deref (h : Heap) (r : Rule) (k : Kind) (a b : RVal)
+    (hc : compat r k = true) (hr : r ≠ .tagsInPlace) (ha : RefOK h k a) (hb : RefOK h k b) :
+    derefVal (mergeFieldH h r a b).1 k (mergeFieldH h r a b).2 = mergeVal r (derefVal h k a) (derefVal h k b) ∧
+    RefOK (mergeFieldH h r a b).1 k (mergeFieldH h r a b).2 := by
+  cases k with
+  | str =>
+    cases a <;> cases b <;> simp [RefOK] at ha hb
+    cases r <;> simp [compat] at hc <;> simp [mergeFieldH, derefVal, mergeVal, RefOK]
+  | int =>
+    cases a <;> cases b <;> simp [RefOK] at ha hb
+    cases r <;> simp [compat] at hc <;> simp [mergeFieldH, derefVal, mergeVal, RefOK]
+  | dur =>
+    cases a <;> cases b <;> simp [RefOK] at ha hb
+    cases r <;> simp [compat] at hc <;> simp [mergeFieldH, derefVal, mergeVal, RefOK]
+  | bool =>
+    cases a <;> cases b <;> simp [RefOK] at ha hb
+    cases r <;> simp [compat] at hc <;> simp [mergeFieldH, derefVal, mergeVal, RefOK]
+  | tags =>
+    cases a with
+    | scalar _ => simp [RefOK] at ha
+    | ref ra =>
+      cases b with
+      | scalar _ => simp [RefOK] at hb
+      | ref rb =>
+        cases r <;> simp [compat] at hc
+        · exact ⟨by simp [mergeFieldH, mergeVal], by simpa [mergeFieldH] using hb⟩
+        · exact mergeFieldH_tagsFresh h ra rb ha hb
+        · exact absurd rfl hr
+        · exact ⟨by simp [mergeFieldH, mergeVal], by simpa [mergeFieldH] using ha⟩
+  | list =>
+    cases a with
+    | scalar _ => simp [RefOK] at ha
+    | ref ra =>
+      cases b with
+      | scalar _ => simp [RefOK] at hb
+      | ref rb =>
+        cases r <;> simp [compat] at hc
+        · exact ⟨by simp [mergeFieldH, mergeVal], by simpa [mergeFieldH] using hb⟩
+        · exact mergeFieldH_concat h ra rb ha hb
+        · exact ⟨by simp [mergeFieldH, mergeVal], by simpa [mergeFieldH] using ha⟩
+
+theorem mergeHLoop_cons (fs : FieldSpec) (rest : List FieldSpec) (h : Heap) (a b acc : RConfig) :
+    mergeHLoop (fs :: rest) h a b acc =
+      mergeHLoop rest (mergeFieldH h fs.rule (rget a fs.name) (rget b fs.name)).1 a b
+        ((fs.name, (mergeFieldH h fs.rule (rget a fs.name) (rget b fs.name)).2) :: acc) := rfl
+
+/-- the inputs are well-formed reference-level configurations over the heap `h0` -/
+def InputsOK (t : List FieldSpec) (h0 : Heap) (a b : RConfig) : Prop :=
+  ∀ fs ∈ t, compat fs.rule fs.kind = true ∧ fs.rule ≠ .tagsInPlace ∧
+    RefOK h0 fs.kind (rget a fs.name) ∧ RefOK h0 fs.kind (rget b fs.name)
+
+theorem mergeHLoop_spec (a b : RConfig) (h0 : Heap) : ∀ (t : List FieldSpec), t.Nodup → InputsOK t h0 a b →
+    ∀ (h : Heap) (acc : RConfig), Keeps h0 h →
+    ∃ g : FieldSpec → RVal,
+      (mergeHLoop t h a b acc).2 = acc.reverse ++ t.map (fun fs => (fs.name, g fs)) ∧
+      Keeps h (mergeHLoop t h a b acc).1 ∧
+      ∀ fs ∈ t, RefOK (mergeHLoop t h a b acc).1 fs.kind (g fs) ∧
+        derefVal (mergeHLoop t h a b acc).1 fs.kind (g fs) =
+          mergeVal fs.rule (derefVal h0 fs.kind (rget a fs.name)) (derefVal h0 fs.kind (rget b fs.name)) := by
+  intro t
+  induction t with
+  | nil =>
+    intro _ _ h acc _
+    exact ⟨fun _ => .ref none, by simp [mergeHLoop], Keeps.refl h, by simp⟩
+  | cons fs rest ih =>
+    intro hnd hin h acc hk
+    obtain ⟨hc, hr, hra, hrb⟩ := hin fs (by simp)
+    have hfield := mergeFieldH_deref h fs.rule fs.kind (rget a fs.name) (rget b fs.name) hc hr
+      (RefOK_keeps hk _ _ hra) (RefOK_keeps hk _ _ hrb)
+    have hk1 : Keeps h (mergeFieldH h fs.rule (rget a fs.name) (rget b fs.name)).1 := mergeFieldH_keeps h fs.rule _ _ hr
+    have hnd' := List.nodup_cons.mp hnd
+    obtain ⟨g, hg1, hg2, hg3⟩ := ih hnd'.2 (fun x hx => hin x (by simp [hx])) _
+      ((fs.name, (mergeFieldH h fs.rule (rget a fs.name) (rget b fs.name)).2) :: acc) (hk.trans hk1)
+    rw [mergeHLoop_cons]
+    refine ⟨fun x => if x = fs then (mergeFieldH h fs.rule (rget a fs.name) (rget b fs.name)).2 else g x, ?_, hk1.trans hg2, ?_⟩
+    · rw [hg1]
+      simp only [List.reverse_cons, List.append_assoc, List.singleton_append, List.map_cons, if_true]
+      congr 2
+      apply List.map_congr_left
+      intro x hx
+      have : x ≠ fs := fun e => hnd'.1 (e ▸ hx)
+      simp [this]
+    · intro x hx
+      rcases List.mem_cons.mp hx with rfl | hx
+      · simp only [if_true]
+        refine ⟨RefOK_keeps hg2 _ _ hfield.2, ?_⟩
+        rw [derefVal_keeps hg2 _ _ hfield.2, hfield.1, derefVal_keeps hk _ _ hra, derefVal_keeps hk _ _ hrb]
+      · have : x ≠ fs := fun e => hnd'.1 (e ▸ hx)
+        simp only [this, if_false]
+        exact hg3 x hx
+
+theorem alookup_map_rspec (g : FieldSpec → RVal) (t : List FieldSpec) (hnd : (names t).Nodup)
+    (fs : FieldSpec) (hfs : fs ∈ t) :
+    alookup (t.map fun x => (x.name, g x)) fs.name = some (g fs) := by
+  induction t with
+  | nil => simp at hfs
+  | cons x t ih =>
+    simp only [names, List.map_cons, List.nodup_cons] at hnd
+    simp only [List.map_cons]
+    rw [alookup_cons]
+    rcases List.mem_cons.mp hfs with h | h
+    · subst h; simp
+    · have : ¬ (x.name == fs.name) = true := by
+        intro e
+        apply hnd.1
+        rw [eq_of_beq e]
+        exact List.mem_map_of_mem (f := (·.name)) h
+      simp only [this]
+      exact ih hnd.2 h
+
+theorem nodup_of_names_nodup (t : List FieldSpec) (h : (names t).Nodup) : t.Nodup := by
+  induction t with
+  | nil => simp
+  | cons x t ih =>
+    simp only [names, List.map_cons, List.nodup_cons] at h
+    exact List.nodup_cons.mpr ⟨fun hx => h.1 (List.mem_map_of_mem (f := (·.name)) hx), ih h.2⟩
+
+theorem get_deref (t : List FieldSpec) (hnd : (names t).Nodup) (h : Heap) (c : RConfig) (fs : FieldSpec) (hfs : fs ∈ t) :
+    get (deref t h c) fs.name = derefVal h fs.kind (rget c fs.name) := by
+  have hh := alookup_map_spec (fun x => derefVal h x.kind (rget c x.name)) t hnd fs hfs
+  show (alookup (deref t h c) fs.name).getD (.str "") = _
+  unfold deref
+  rw [hh]; rfl
+
+/-- **Heap view = value view.**  For a table without in-place writes whose rules fit the field
+types, and inputs that are well-formed over the heap, the configuration the heap-level
+`MergeConfig` returns denotes exactly `merge` of what the inputs denote. -/
+theorem mergeH_deref (t : List FieldSpec) (hnd : (names t).Nodup) (h : Heap) (a b : RConfig)
+    (hin : InputsOK t h a b) :
+    deref t (mergeH t h a b).1 (mergeH t h a b).2 = merge t (deref t h a) (deref t h b) := by
+  obtain ⟨g, hg1, _, hg3⟩ := mergeHLoop_spec a b h t (nodup_of_names_nodup t hnd) hin h [] (Keeps.refl h)
+  unfold mergeH
+  unfold deref merge
+  apply List.map_congr_left
+  intro fs hfs
+  have hr : rget (mergeHLoop t h a b []).2 fs.name = g fs := by
+    unfold rget
+    rw [hg1]
+    simp only [List.reverse_nil, List.nil_append]
+    rw [alookup_map_rspec g t hnd fs hfs]; rfl
+  have ha := get_deref t hnd h a fs hfs
+  have hb := get_deref t hnd h b fs hfs
+  unfold deref at ha hb
+  rw [hr, (hg3 fs hfs).2, ha, hb]
+
+
 end SerfProofs.Config
